@@ -134,12 +134,14 @@ PROPS["C09"] = {
     "rule": ("TestC09RoundTrip: structured entries (any state, extreme timestamps, response nil or with compress settings, 0-12 header names multi-valued incl. empty/long/UTF-8 values, status 100-599, "
              "any subset of raw/gzip/br bodies 0..64 KiB, thorough 4 MiB): FromBytes(Bytes(x)) must give equal fields and identical Fill results for 5 Accept-Encoding values, and every strict prefix "
              "(all offsets <= 4 KiB, sampled beyond) must be rejected. TestC09Mutated: bit flips, length-field overwrites with hostile values, rotations and random bytes: no panic, allocation <= 8 MiB + 64*len, "
-             "successful decodes are fixed points. Thorough adds the native coverage-guided target FuzzC09FromBytes (same oracle inside the target; executions are added to evaluations). Non-trivial = response with >=2 header names and >=1 non-empty body (round trip) / input >= 12 bytes (mutated). Distinct by canonical scenario JSON."),
+             "successful decodes are fixed points. Thorough adds the native coverage-guided target FuzzC09FromBytes (same oracle inside the target; executions are added to evaluations). Non-trivial = response with >=2 header names and >=1 non-empty body (round trip) / input >= 12 bytes (mutated). Distinct by canonical scenario JSON. "
+             "TestC09FilterLimit: content-type filters of ASCII and multi-byte alternatives with lengths around 1000 bytes and around 1000 characters; every filter the configuration validation accepts for a server must survive the round trip of an entry carrying it (the decoder refuses filters longer than the validation allows)."),
     "assumptions": ["entries are built through the hook VerifNewEntry; stored gzip/br variants are valid streams (Fill decodes them)",
                     "header values that are not valid UTF-8 are excluded by construction while the finding header-value-invalid-utf8 is open (counted under excluded_known)"],
     "jobs": [
         {"engine": "unit", "test": "TestC09RoundTrip", "quick": {"shards": 8, "checks": 1500, "timeout": 400}, "thorough": {"shards": 16, "checks": 40000, "timeout": 3400}},
         {"engine": "unit", "test": "TestC09Mutated", "quick": {"shards": 8, "checks": 3000, "timeout": 400}, "thorough": {"shards": 16, "checks": 100000, "timeout": 3400}},
+        {"engine": "unit", "test": "TestC09FilterLimit", "quick": {"shards": 2, "checks": 300, "timeout": 300}, "thorough": {"shards": 8, "checks": 3000, "timeout": 1200}},
         {"engine": "fuzz", "test": "FuzzC09FromBytes", "rapid": False, "fuzz": True, "solo": True, "thorough": {"shards": 1, "fuzztime": "180s", "timeout": 600}},
         {"engine": "unit", "test": "TestC09ProbeInvalidUTF8", "rapid": False, "probe": True, "quick": {"shards": 1, "timeout": 60}, "thorough": {"shards": 1, "timeout": 60}},
     ],
